@@ -92,12 +92,30 @@ fn out_of(o: &Result<Outcome, fe2o3_amqp::link::SendError>) -> Out {
 
 enum CmdA {
     Send(usize, bool, u32, oneshot::Sender<Result<(), String>>),
+    /// detach sender 0 (non-closing) and resume it
+    DetachResume(oneshot::Sender<Result<(), String>>),
 }
 
 type Results = Arc<Mutex<BTreeMap<u32, Out>>>;
 
 async fn sender_app(mut senders: Vec<Sender>, mut rx: mpsc::Receiver<CmdA>, results: Results) {
-    while let Some(CmdA::Send(link, presettled, seq, done)) = rx.recv().await {
+    while let Some(cmd) = rx.recv().await {
+        let (link, presettled, seq, done) = match cmd {
+            CmdA::Send(a, b, c, d) => (a, b, c, d),
+            CmdA::DetachResume(done) => {
+                let s0 = senders.remove(0);
+                match s0.detach().await {
+                    Ok(d) => {
+                        let _ = done.send(Ok(()));
+                        let _ = tokio::time::timeout(std::time::Duration::from_secs(5), d.resume()).await;
+                    }
+                    Err((_d, e)) => {
+                        let _ = done.send(Err(format!("detach failed: {e:?}")));
+                    }
+                }
+                break;
+            }
+        };
         let body = Body::Value(fe2o3_amqp::types::messaging::AmqpValue(Value::Uint(seq)));
         let msg = fe2o3_amqp::types::messaging::Message::builder().body(body).build();
         let sendable: Sendable<Body<Value>> = Sendable::builder().message(msg).settled(if presettled { Some(true) } else { None }).build();
@@ -358,6 +376,26 @@ pub async fn run_a(c: &CaseA) -> Result<InfoA, String> {
         let body = Peer::disposition_body(true, first_id, Some(last_id), true, Some(sv));
         peer.send_frame(my_ch, &body, &[]).await?;
         step!("final settling disposition over everything");
+    }
+    // after settlement the sender retains nothing: its resuming attach lists no unsettled delivery
+    {
+        peer.settle().await;
+        let (dtx, drx) = oneshot::channel();
+        tx.send(CmdA::DetachResume(dtx)).await.map_err(|_| "app gone".to_string())?;
+        let d = peer.wait_for("detach").await?;
+        let closed = as_bool(&d.field(1)).unwrap_or(false);
+        peer.send_frame(my_ch, &Peer::detach_body(20, closed, None), &[]).await?;
+        match tokio::time::timeout(std::time::Duration::from_secs(10), drx).await {
+            Ok(Ok(Ok(()))) => {}
+            Ok(Ok(Err(e))) => return Err(format!("final detach of the sender: {e}")),
+            _ => return Err("final detach of the sender did not complete although the peer answered it".into()),
+        }
+        let a = peer.wait_for("attach").await.map_err(|e| format!("resume: the sender sent no attach: {e}"))?;
+        if let RValue::Map(m) = a.field(7) {
+            if !m.is_empty() {
+                return Err(format!("resume: every delivery was settled, but the sender's resuming attach still lists {} unsettled deliveries: {:?}", m.len(), m.iter().map(|(k, _)| k.clone()).collect::<Vec<_>>()));
+            }
+        }
     }
     drop(tx);
     let _ = (&conn, &sess, &ep_handles);
